@@ -24,7 +24,11 @@ type World struct {
 	Service   bus.Service
 	ServiceID uint32
 	Root      *probe.Impl
-	Host      string
+	// Actor is the service object itself (for bus.DirectClient: the local
+	// proxies the generated constructors hand out go through a second
+	// mailbox of the same object).
+	Actor bus.Actor
+	Host  string
 }
 
 // Start launches a stand-alone server with the given authenticator.
@@ -38,7 +42,8 @@ func Start(auth bus.Authenticator) *World {
 	if err != nil {
 		panic(err)
 	}
-	w.Service, err = w.Srv.NewService("Probe", probe.ProbeObject(w.Root))
+	w.Actor = probe.ProbeObject(w.Root)
+	w.Service, err = w.Srv.NewService("Probe", w.Actor)
 	if err != nil {
 		panic(err)
 	}
